@@ -430,12 +430,62 @@ def render_txt(blocks, header, footer):
     return io.BytesIO(blk(blocks).encode("utf-8"))
 
 
+def render_mhtml(blocks, header, footer):
+    html = render_html(blocks, header, footer).getvalue().decode("utf-8")
+    b = "----=_NextPart_C02"
+    doc = ("From: <Saved by C02>\r\nSubject: t\r\nMIME-Version: 1.0\r\n"
+           f'Content-Type: multipart/related; type="text/html"; boundary="{b}"\r\n\r\n'
+           f"--{b}\r\nContent-Type: text/html; charset=\"utf-8\"\r\nContent-Transfer-Encoding: 8bit\r\nContent-Location: http://example.org/\r\n\r\n"
+           + html + f"\r\n--{b}--\r\n")
+    return io.BytesIO(doc.encode("utf-8"))
+
+
+EPUB_SKELETON = {
+    "mimetype": "application/epub+zip",
+    "META-INF/container.xml": '<?xml version="1.0"?><container version="1.0" xmlns="urn:oasis:names:tc:opendocument:xmlns:container">'
+                              '<rootfiles><rootfile full-path="OEBPS/content.opf" media-type="application/oebps-package+xml"/></rootfiles></container>',
+    "OEBPS/content.opf": '<?xml version="1.0"?><package xmlns="http://www.idpf.org/2007/opf" version="3.0" unique-identifier="id">'
+                         '<metadata xmlns:dc="http://purl.org/dc/elements/1.1/"><dc:title>T</dc:title><dc:identifier id="id">x</dc:identifier></metadata>'
+                         '<manifest><item id="c1" href="c1.xhtml" media-type="application/xhtml+xml"/></manifest><spine><itemref idref="c1"/></spine></package>',
+}
+
+
+def render_epub(blocks, header, footer):
+    if header or footer:
+        raise Unsupported("header/footer")
+
+    def no_tables(bs):
+        for b in bs:
+            if b[0] == "table":
+                raise Unsupported("epub tables are documented through iterate_tables()")
+            if b[0] in ("list",):
+                for item in b[1]:
+                    no_tables(item)
+            if b[0] in ("section", "sdt"):
+                no_tables(b[1])
+    no_tables(blocks)
+    body = html_blocks(blocks).replace("<br>", "<br/>").replace("&#9;", "\t")
+    files = {
+        "mimetype": "application/epub+zip",
+        "META-INF/container.xml": '<?xml version="1.0"?><container version="1.0" xmlns="urn:oasis:names:tc:opendocument:xmlns:container">'
+                                  '<rootfiles><rootfile full-path="OEBPS/content.opf" media-type="application/oebps-package+xml"/></rootfiles></container>',
+        "OEBPS/content.opf": '<?xml version="1.0"?><package xmlns="http://www.idpf.org/2007/opf" version="3.0" unique-identifier="id">'
+                             '<metadata xmlns:dc="http://purl.org/dc/elements/1.1/"><dc:title>T</dc:title><dc:identifier id="id">x</dc:identifier></metadata>'
+                             '<manifest><item id="c1" href="c1.xhtml" media-type="application/xhtml+xml"/></manifest><spine><itemref idref="c1"/></spine></package>',
+        "OEBPS/c1.xhtml": '<?xml version="1.0"?><html xmlns="http://www.w3.org/1999/xhtml"><head><title>c1</title><style>p{}</style></head><body>'
+                          + body + "<script>var XRM998x = 1;</script></body></html>",
+    }
+    return _zip(files)
+
+
 FLOW = {
     "docx": ("ms_modern.docx_extractor", "read_docx", render_docx),
     "odt": ("open_office.odt_extractor", "read_odt", render_odt),
     "html": ("html_extractor", "read_html", render_html),
     "rtf": ("ms_legacy.rtf_extractor", "read_rtf", render_rtf),
     "txt": ("plain_extractor", "read_plain_text", render_txt),
+    "mhtml": ("mhtml_extractor", "read_mhtml", render_mhtml),
+    "epub": ("epub_extractor", "read_epub", render_epub),
 }
 
 
@@ -452,15 +502,25 @@ def deck_features():
     F["comment"] = [dict(title=v(), body=[[("t", v())]], comment=x("COM"))]
     F["footer"] = [dict(title=v(), body=[[("t", v())]], footer=x("HF"))]
     F["two-textboxes"] = [dict(title=v(), body=[[("t", v())]], extra=[[("t", v())]])]
+    F["subtitle"] = [dict(title=v(), subtitle=v(), body=[[("t", v())]])]
+    F["object-and-unknown-placeholders"] = [dict(title=v(), body=[[("t", v())]], placeholders=[("obj", v()), ("chart", v()), ("sldNum", v())])]
+    F["date-and-header-placeholders"] = [dict(title=v(), body=[[("t", v())]], placeholders=[("dt", x("HF")), ("hdr", x("HF"))])]
     return F
 
 
 def deck_spec(slides, tables_in_text=True):
+    """pptx: reading order.  odp (tables_in_text False): the documented category order title, body, other --
+    a SubTitle-styled paragraph after the title is `other`."""
     out = []
     for s in slides:
         out.append(s["title"])
+        if s.get("subtitle") and tables_in_text:
+            out.append(s["subtitle"])
         out.extend(inline_spec(p) for p in s["body"])
         out.extend(inline_spec(p) for p in s.get("extra", []))
+        out.extend(t for k, t in s.get("placeholders", []) if k not in ("dt", "hdr", "ftr", "sldImg"))
+        if s.get("subtitle") and not tables_in_text:
+            out.append(s["subtitle"])
         if tables_in_text and s.get("table"):
             out.extend(" ".join(r) for r in s["table"])
     return "\n".join(out)
@@ -497,8 +557,12 @@ def render_pptx(slides):
     prel, ids = [], []
     for n, s in enumerate(slides, 1):
         shapes = [pptx_shape(2, "title", [[("t", s["title"])]], 100), pptx_shape(3, "body", s["body"], 1000)]
+        if s.get("subtitle"):
+            shapes.append(pptx_shape(4, "subTitle", [[("t", s["subtitle"])]], 500))
         if s.get("extra"):
             shapes.append(pptx_shape(5, None, s["extra"], 2000))
+        for k, (pht, tok) in enumerate(s.get("placeholders", [])):
+            shapes.append(pptx_shape(20 + k, pht, [[("t", tok)]], 2500 + 10 * k))
         if s.get("table"):
             rows = "".join("<a:tr>" + "".join(f"<a:tc><a:txBody><a:bodyPr/><a:p><a:r><a:t>{c}</a:t></a:r></a:p></a:txBody></a:tc>" for c in r) + "</a:tr>" for r in s["table"])
             shapes.append('<p:graphicFrame><p:nvGraphicFramePr><p:cNvPr id="6" name="t"/><p:cNvGraphicFramePr/><p:nvPr/></p:nvGraphicFramePr>'
@@ -545,10 +609,12 @@ def odp_par(p, style):
 def render_odp(slides):
     pages = []
     for n, s in enumerate(slides, 1):
-        if s.get("footer"):
-            raise Unsupported("odp footer")
+        if s.get("footer") or s.get("placeholders"):
+            raise Unsupported("odp footer / placeholder types")
         fr = [f'<draw:frame presentation:class="title" svg:x="1cm" svg:y="1cm"><draw:text-box>{odp_par([("t", s["title"])], "TitleText")}</draw:text-box></draw:frame>',
               '<draw:frame presentation:class="outline" svg:x="1cm" svg:y="4cm"><draw:text-box>' + "".join(odp_par(p, "BodyText") for p in s["body"]) + "</draw:text-box></draw:frame>"]
+        if s.get("subtitle"):
+            fr.append(f'<draw:frame presentation:class="subtitle" svg:x="1cm" svg:y="2cm"><draw:text-box>{odp_par([("t", s["subtitle"])], "SubTitleText")}</draw:text-box></draw:frame>')
         if s.get("extra"):
             fr.append('<draw:frame svg:x="1cm" svg:y="8cm"><draw:text-box>' + "".join(odp_par(p, "BodyText") for p in s["extra"]) + "</draw:text-box></draw:frame>")
         if s.get("comment"):
